@@ -4,8 +4,8 @@
 # working tree, then runs the check. Exit: 0 held, 1 violation, 2 inconclusive/infrastructure.
 # The thorough tier adds the coverage-guided stage (tools/fuzz_stage.py, libFuzzer) for the
 # properties that have one; it runs only if the generated-case stage found nothing.
-# C12 runs from a second build of the harness with its feature `watcher` (flexi_logger's specfile
-# watcher thread takes part in some of its cases), kept in harness/target-w.
+# C04, C10 and C12 run from a second build of the harness with its feature `watcher` (flexi_logger's
+# specfile watcher thread takes part in some of their cases), kept in harness/target-w.
 ID="$1"; TIER="${2:-quick}"
 ROOT="$(cd "$(dirname "$0")" && pwd)"
 cd "$ROOT/harness" || exit 2
@@ -13,7 +13,7 @@ if ! CARGO_NET_OFFLINE=true cargo build --release --offline >"$ROOT/harness/buil
   echo "BUILD FAILED (see $ROOT/harness/build.log)"; tail -30 "$ROOT/harness/build.log"; exit 2
 fi
 FLV="$ROOT/harness/target/release/flv"
-if [ "$ID" = "C12" ]; then
+if [ "$ID" = "C12" ] || [ "$ID" = "C04" ] || [ "$ID" = "C10" ]; then
   if ! CARGO_NET_OFFLINE=true cargo build --release --offline --features watcher --target-dir "$ROOT/harness/target-w" >"$ROOT/harness/build-w.log" 2>&1; then
     echo "BUILD FAILED (see $ROOT/harness/build-w.log)"; tail -30 "$ROOT/harness/build-w.log"; exit 2
   fi
